@@ -151,7 +151,8 @@ def schema(prefix=""):
         for tn in ("A", "B"):
             def is_type_of(value, info, tn=tn):
                 def thunk():
-                    return getattr(value, "typename", None) == tn
+                    # an object may be one that its own type's is_type_of rejects ("reject": the resolved type is not what it is)
+                    return getattr(value, "typename", None) == tn and not getattr(value, "reject", False)
                 if IS_TYPE_OF_HOOK is not None:
                     return IS_TYPE_OF_HOOK(tn, thunk, info)
                 return thunk()
@@ -201,7 +202,10 @@ def gen_outcome(rnd, t, depth, p_null=0.12, p_err=0.1, p_bad=0.04):
 
 
 def gen_obj(rnd, tn, depth, p_null=0.12, p_err=0.1, p_bad=0.04):
-    return {"t": "o", "type": tn, "f": {f: gen_outcome(rnd, fd["type"], depth, p_null, p_err, p_bad) for f, fd in TYPES[tn]["fields"].items()}}
+    o = {"t": "o", "type": tn, "f": {f: gen_outcome(rnd, fd["type"], depth, p_null, p_err, p_bad) for f, fd in TYPES[tn]["fields"].items()}}
+    if tn in ("A", "B") and p_bad and rnd.random() < 0.05:
+        o["reject"] = True          # is_type_of of its (resolved) type says no
+    return o
 
 
 def possible(tn):
@@ -421,7 +425,7 @@ def prune(oc, names):
     if oc["t"] == "l":
         return {"t": "l", "v": [prune(x, names) for x in oc["v"]]}
     if oc["t"] == "o":
-        return {"t": "o", "type": oc["type"], "f": {f: prune(v, names) for f, v in oc["f"].items() if f in names}}
+        return {**{k: v for k, v in oc.items() if k == "reject"}, "t": "o", "type": oc["type"], "f": {f: prune(v, names) for f, v in oc["f"].items() if f in names}}
     return oc
 
 
@@ -574,6 +578,7 @@ def to_py(oc):
         return [to_py(i) for i in oc["v"]]
     d = Obj({f: to_py(v) for f, v in oc["f"].items()})
     d.typename = oc["type"]
+    d.reject = bool(oc.get("reject"))
     return d
 
 
@@ -590,12 +595,17 @@ def make_type_resolver(wrap=None):
     return resolve
 
 
+ROOT_MISMATCH = []
+
+
 def make_resolver(calls, wrap=None):
     """Generic field resolver over to_py data; logs (path, args). `wrap(key, thunk)` lets C03 turn any resolver
     result into an awaitable."""
     def resolver(source, info, **args):
         path = info.path.as_list()
         calls.append({"path": wire.enc_path(path), "args": enc_args(args)})
+        if len(path) == 1 and info.root_value is not source:
+            ROOT_MISMATCH.append(path)          # a root field's resolver sees a root value that is not the value it resolves on
         v = source.get(info.field_name) if isinstance(source, dict) else None
 
         def produce():
